@@ -39,6 +39,9 @@ def crafted_package():
     aim = T("map", "Aim", k=prim("uint16"), e=prim("string"))
     d.append(("Fl", "Fl: !flags\n  base: uint16\n  values:\n    fa: 1\n    fb: 2\n    fab: 3\n    fc: 8"))
     fl = T("enum", "Fl", base="uint16", name="Fl", symbols=[("fa", 1), ("fb", 2), ("fab", 3), ("fc", 8)], is_flags=True)
+    # members that cover several bits, declared BEFORE their parts, and two members that overlap partially
+    d.append(("Fm", "Fm: !flags\n  base: uint8\n  values:\n    rw: 3\n    r: 1\n    w: 2\n    low: 12\n    mid: 24"))
+    fm = T("enum", "Fm", base="uint8", name="Fm", symbols=[("rw", 3), ("r", 1), ("w", 2), ("low", 12), ("mid", 24)], is_flags=True)
     # nullable field types reached through aliases (the field must still be omitted / read as null when absent)
     d.append(("Label", "Label: string?"))
     d.append(("MaybeNum", "MaybeNum: [null, int64, float64]"))      # not the inline union of Rk.n: see the C08 finding
@@ -63,7 +66,9 @@ def crafted_package():
              ("ui", U([am, aim]), True),
              ("uj", U([fl, prim("int32"), prim("string")]), True),                   # flags are arrays of symbols OR a number
              ("uk", U([fl, prim("string")], has_null=True), True),
-             ("ul", ral, True)]                                             # object, array
+             ("ul", ral, True),
+             ("um", fm, True),
+             ("un", U([fm, prim("string")]), True)]                                             # object, array
     pkg.protocols.append(("Pu", steps))
     return pkg
 
